@@ -4108,11 +4108,15 @@ func listOmitsCommas(elems []ast.Expr, lbrack, rbrack token.Pos) bool {
 // Keying off tokenisation rather than RelPos means the space is emitted
 // by construction, even for programmatic ASTs that carry no RelPos.
 func unaryOpMergesWithOperand(op token.Token, operand ast.Expr) bool {
-	inner, ok := operand.(*ast.UnaryExpr)
-	if !ok {
-		return false
+	var lead string
+	switch x := operand.(type) {
+	case *ast.UnaryExpr:
+		lead = x.Op.String()
+	case *ast.BasicLit:
+		// A negative number built as a single literal, as the exporter
+		// does for bounds such as `< -1`.
+		lead = x.Value
 	}
-	lead := inner.Op.String()
 	if lead == "" {
 		return false
 	}
